@@ -110,6 +110,8 @@ class Corr(Job):
         if not ok:
             # a difference of VALUES only (same None/Some/panic pattern throughout) at f64 may be mere rounding: see run_jobs
             value_only = self.mode != "q" and compare_lines(self.mode, a, b, "pattern", self.scale)[0]
+            if value_only and self.projection == "rel" and not compare_lines(self.mode, a, b, "rel", self.scale, 1e-6)[0]:
+                value_only = False   # a gross difference (overflow, flush to zero, a lost bit pattern) is not rounding
             return dict(explanation="implementation and Lean model disagree (projection %s) at output line %d" % (self.projection, i),
                         expected=b[i] if i < len(b) else None, actual=a[i] if i < len(a) else None, corr_only=True,
                         value_only=value_only)
